@@ -202,10 +202,64 @@ def run_C16(ctx):
         ctx.extra['ts'] = ts_note or 'covered'
         ctx.extra['grammars'] = len(gs)
         ctx.extra['go_packages_compiled'] = len(ok_pkgs)
+        ctx.extra['action_code_model'] = action_code_compare(ctx, gs, gen, texts, work)
         for (gname, vn) in list(gen)[:3]:
             ctx.sample(dict(grammar=gname, variant=vn, generator_exit=gen[(gname, vn)][0], head=texts[(gname, vn)][140:300]))
     finally:
         shutil.rmtree(work, ignore_errors=True)
+
+
+def action_code_compare(ctx, gs, gen, texts, work):
+    """The code emitted for every semantic action (default Go variant and TypeScript) against the Coq model
+    EmitAction.subst_action run on the implementation's own action text and tags (from the in-process dump)."""
+    hx = lambda t: t.encode('utf8').hex() or '-'
+    jobs = []          # (gname, lang, path of .y, path of generated file)
+    for gi, (gname, g) in enumerate(gs):
+        if gen.get((gname, 'gp'), (1, ''))[0] == 0:
+            jobs.append((gname, 0, os.path.join(work, 'p%dgp' % gi, 'g.y'), os.path.join(work, 'p%dgp' % gi, 'p.go')))
+        if gen.get((gname, 'ts'), (1, ''))[0] == 0:
+            jobs.append((gname, 1, os.path.join(work, 'g%d.y' % gi), os.path.join(work, 'g%d.ts' % gi)))
+    dumps = vlib.run_dump([j[2] for j in jobs])
+    cmds, want = [], {}
+    for ji, ((gname, lang, y, outp), d) in enumerate(zip(jobs, dumps)):
+        if not d.get('ok'):
+            continue
+        tag_of = {s['id']: s['tag'] for s in d['symbols']}
+        for ri, r in enumerate(d['rules']):
+            if ri == 0:
+                continue
+            key = 'j%dr%d' % (ji, ri)
+            want[key] = (ji, ri)
+            cmds.append('B %s %d %s %d %s %s\n' % (key, lang, hx(tag_of.get(r['lhs'], '')), len(r['rhs'] or []),
+                                                  ' '.join(hx(tag_of.get(x, '')) for x in (r['rhs'] or [])), hx(r['action'] or '')))
+    model = {}
+    for ln in vlib.model_eval_chunks(cmds):
+        f = ln.split()
+        if len(f) >= 3 and f[0] == 'B':
+            model[f[1]] = bytes.fromhex(f[3]).decode('utf8', 'replace') if (f[2] == 'ok' and len(f) > 3 and f[3] != '-') else ('' if f[2] == 'ok' else None)
+    n = bad = refs = 0
+    for key, (ji, ri) in want.items():
+        gname, lang, y, outp = jobs[ji]
+        src = open(outp).read()
+        if lang == 0:
+            m = re.search(r'case %d: \n\tdollarDolar\.YySymIndex = \d+\n\tDollar := [^\n]*\n\t_ = Dollar\n\n/\*\n.*?\*/\n(.*?)\n\t(?:c\.)?PopStateSym\(\d+\)\n' % ri, src, re.S)
+        else:
+            m = re.search(r'case %d: \{\n\tdollarDolar\.YySymIndex = \d+\n\tlet Dollar = [^\n]*\n\n/\*\n.*?\*/\n(.*?)\n\tPopStateSym\(\d+\);\n\tbreak;\n\}\n' % ri, src, re.S)
+        n += 1
+        ctx.evaluations += 1
+        got = m.group(1) if m else None
+        exp = model.get(key, 'NO ANSWER')
+        if exp and '$' in (dumps[ji]['rules'][ri]['action'] or ''):
+            refs += 1
+        if got != exp:
+            bad += 1
+            if bad <= 2:
+                t = texts.get((gname, 'gp' if lang == 0 else 'ts'), '')
+                ctx.violation('no-failing-input-found' if got is None else 'counterexample',
+                              'grammar %s (%s), rule %d: the code emitted for the action is %r, the model of the substitution ($$ -> value field of the left-hand side, $n -> field of symbol n) gives %r'
+                              % (gname, 'go' if lang == 0 else 'typescript', ri, got, exp),
+                              dict(grammar=gname, variant='gp' if lang == 0 else 'ts', grammar_text=t, grammar_sha=vlib.sha(t), rule=ri, observed=got, expected=exp), interface='I7')
+    return dict(actions_compared=n, with_dollar_references=refs, differences=bad)
 
 
 # ---------------------------------------------------------------- C17
